@@ -150,7 +150,11 @@ pub fn result_attribution(cx: &mut Ctx, prop: &str) {
                     }
                     _ => continue,
                 };
-                let tags = crate::sqlmini::find_tags(&cols[0]);
+                // attribution: the step tag travels as bind parameter 1 (echoed in column "params")
+                // when the statement text is shared or was prepared by an earlier step; otherwise
+                // the tag literal of the statement itself (column "tag")
+                let ptags = if cols.len() > 3 { crate::sqlmini::find_tags(&cols[3]) } else { vec![] };
+                let tags = if ptags.is_empty() { crate::sqlmini::find_tags(&cols[0]) } else { ptags };
                 let tag = match tags.first() {
                     Some(t) => *t,
                     None => continue,
@@ -463,7 +467,11 @@ pub fn relay_check(cx: &mut Ctx, prop: &str, replies_only: bool) {
             if units.is_empty() {
                 // answered by the pooler itself (custom command, intercept, deny, elided batch)
                 cx.probe("relay_step_without_unit");
-                if cx.param_bool("all_forwarded") {
+                // Only Parse / named Close / Sync can be answered by the pooler's statement cache;
+                // anything that binds, executes, describes or queries must reach a server.
+                let (sent_msgs, _) = proto::split_all(&s.sent);
+                let must_forward = sent_msgs.iter().any(|m| matches!(m.ty, b'B' | b'E' | b'D' | b'Q' | b'd' | b'c' | b'f'));
+                if cx.param_bool("all_forwarded") || (must_forward && cx.param_bool("cache_on") && pooler_error(&s.msgs).is_none()) {
                     cx.v(prop, "request_not_forwarded", &format!("{}/request_not_forwarded", prop), s.done_seq, format!("client {} step {} ({:?}) completed but no backend received it", c.id, s.idx, s.tags.first()));
                 }
                 continue;
@@ -489,7 +497,8 @@ pub fn relay_check(cx: &mut Ctx, prop: &str, replies_only: bool) {
                         cx.v(prop, "request_modified", &format!("{}/request_modified", prop), s.done_seq, format!("client {} step {}: backend received {} bytes, client sent {}; first difference at byte {}", c.id, s.idx, bin.len(), s.sent.len(), at));
                     }
                 } else if let Err(e) = same_modulo_names(&s.sent, &bin) {
-                    cx.v(prop, "request_modified", &format!("{}/request_modified_cache", prop), s.done_seq, format!("client {} step {}: {}", c.id, s.idx, e));
+                    let fp = if cx.spec.family.contains("near_colliding") { "request_modified_cache/hash_concat_collision" } else { "request_modified_cache" };
+                    cx.v(prop, "request_modified", &format!("{}/{}", prop, fp), s.done_seq, format!("client {} step {}: {}", c.id, s.idx, e));
                 }
             }
             if !cache_on {
